@@ -162,6 +162,45 @@ def lon_for_end_of_utc_day(rng, lat, lon, d, idx):
     return lon
 
 
+def dst_day_edge(rng, name):
+    """(observer, date, zone): a clock-change date of an IANA zone and a longitude at which the
+    moon event falls within an hour of the END of that local date — where a day that is 23 or
+    25 hours long differs from one that is assumed to be 24"""
+    zn = rng.choice(["Europe/London", "America/New_York", "America/Los_Angeles", "Europe/Berlin",
+                     "Pacific/Auckland", "Australia/Sydney", "America/Sao_Paulo", "Asia/Tehran",
+                     "America/St_Johns", "Africa/Casablanca", "Europe/Lisbon", "America/Santiago"])
+    z = zones.iana(zn)
+    changes = [t for t, _ in z.utc_table[1:]]
+    if not changes:
+        return None
+    t_us = rng.choice(changes)
+    local_change = datetime.datetime(1, 1, 1) + datetime.timedelta(microseconds=t_us) \
+        - datetime.timedelta(days=1)                      # wall_us counts from ordinal 0
+    d = local_change.replace(tzinfo=UTC).astimezone(z.tzinfo).date()
+    if not (datetime.date(1901, 1, 1) < d < datetime.date(2099, 12, 1)):
+        return None
+    lat = rng.uniform(-55, 55)
+    lon = rng.uniform(-180, 180)
+    nxt = d + datetime.timedelta(days=1)
+    end_utc = datetime.datetime(nxt.year, nxt.month, nxt.day, tzinfo=z.tzinfo).astimezone(UTC)
+    target = end_utc + datetime.timedelta(minutes=rng.uniform(-58, 58))
+    idx = 0 if name == "moonrise" else 1
+    for _ in range(4):
+        best = None
+        for du in (-1, 0, 1):
+            st, v = call(moon.riseset, target.date() + datetime.timedelta(days=du), Observer(lat, lon))
+            if st == "ok" and v[idx] is not None:
+                gap = (target - v[idx]).total_seconds() / 60.0
+                if best is None or abs(gap) < abs(best):
+                    best = gap
+        if best is None:
+            return None
+        if abs(best) < 3:
+            break
+        lon = (lon - best / 4.14 + 180.0) % 360.0 - 180.0      # moving west delays the event
+    return Observer(lat, lon), d, z
+
+
 def gen_riseset(rng, n, tier="quick"):
     # consecutive dates for one observer, in ascending order, across two lunar months: state
     # carried from one day's scan to the next (cached, mutated positions) shows up
@@ -204,7 +243,14 @@ def gen_riseset(rng, n, tier="quick"):
             z = zones.rand_zone(rng, d0)
             d = gens.rand_date(rng, z, wide=False) if z.iana else d0
             name = "moonrise" if k == 1 else "moonset"
-            if rng.random() < 0.2:
+            if rng.random() < 0.10:
+                e = dst_day_edge(rng, name)
+                if e is not None:
+                    o, d, z = e
+                    lat, lon = o.latitude, o.longitude
+                    if rng.random() < 0.4:
+                        d = d + datetime.timedelta(days=1)      # and the day after, from its start
+            elif rng.random() < 0.2:
                 st0, t0 = call(getattr(moon, name), o, d)
                 if st0 == "ok" and t0 is not None:
                     z = zones.midnight_zone(rng, t0)
